@@ -275,6 +275,9 @@ func vfStartFileSystem(r *vfRun, initial []byte) (*vfFileSystem, error) {
 	default:
 		v.peer = vfNewScriptServer(sim)
 		v.peer.files["/f"] = append([]byte(nil), initial...)
+		if sc.cfg("fsyncext", 0) != 0 {
+			v.peer.exts = [][2]string{{"fsync@openssh.com", "1"}}
+		}
 		c2s, s2c = v.peer.c2s, v.peer.s2c
 		v.name = "/f"
 		v.served = func() []byte {
